@@ -15,9 +15,50 @@ pub fn level_num(l: &ParseErrorLevel) -> u8 {
     }
 }
 
+/// The engines name a diagnostic kind by the message it had at the pinned commit; the name is taken from the
+/// VARIANT, so a rewording of the message in the repository does not change what the checks look for.
+pub fn canonical_kind(k: &glass_easel_template_compiler::parse::ParseErrorKind) -> String {
+    use glass_easel_template_compiler::parse::ParseErrorKind as K;
+    #[allow(unreachable_patterns)]
+    match k {
+        K::UnexpectedCharacter => "unexpected character".into(),
+        K::UnexpectedExpressionCharacter => "unexpected character inside expression".into(),
+        K::UnknownMetaTag => "unknown meta tag".into(),
+        K::MissingExpressionEnd => "missing expression end".into(),
+        K::IllegalEntity => "illegal entity".into(),
+        K::IncompleteTag => "incomplete tag".into(),
+        K::MissingEndTag => "missing end tag".into(),
+        K::IllegalNamePrefix => "illegal name prefix".into(),
+        K::InvalidAttributePrefix => "invalid attribute prefix".into(),
+        K::InvalidAttributeName => "invalid attribute name".into(),
+        K::InvalidAttributeValue => "invalid attribute value".into(),
+        K::InvalidAttribute => "invalid attribute".into(),
+        K::DuplicatedAttribute => "duplicated attribute".into(),
+        K::DuplicatedName => "duplicated name".into(),
+        K::AvoidUppercaseLetters => "avoid uppercase letters".into(),
+        K::UnexpectedWhitespace => "unexpected whitespace".into(),
+        K::MissingAttributeValue => "missing attribute value".into(),
+        K::DataBindingNotAllowed => "data bindings are not allowed for this attribute".into(),
+        K::InvalidIdentifier => "not a valid identifier".into(),
+        K::InvalidScopeName => "not a valid identifier as scope name".into(),
+        K::ChildNodesNotAllowed => "child nodes are not allowed for this element".into(),
+        K::IllegalEscapeSequence => "illegal escape sequence".into(),
+        K::IncompleteConditionExpression => "incomplete condition expression".into(),
+        K::UnmatchedBracket => "unmatched bracket".into(),
+        K::UnmatchedParenthesis => "unmatched parenthesis".into(),
+        K::MissingModuleName => "missing module name".into(),
+        K::MissingSourcePath => "missing source path".into(),
+        K::UnsupportedSyntax => "this syntax has not been supported yet".into(),
+        K::ShouldQuoted => "should be quoted".into(),
+        K::EmptyExpression => "the expression is empty".into(),
+        K::InvalidEndTag => "invalid end tag".into(),
+        other => other.to_string(),
+    }
+}
+
 pub fn diag_json(d: &ParseError) -> Value {
     json!({
-        "kind": d.kind.to_string(),
+        "kind": canonical_kind(&d.kind),
         "code": d.code(),
         "level": level_num(&d.level()),
         "start": [d.location.start.line, d.location.start.utf16_col],
